@@ -1,5 +1,3 @@
-//go:build !vsreal
-
 // Package c07: whatever the application does concurrently, the bytes handed to the
 // transport form a valid, non-interleaved frame stream, and the transport never
 // sees two writes (or two reads) in flight.
